@@ -8,6 +8,8 @@ use prio::flp::Type;
 pub struct Case<T: Type> {
     pub name: String,
     pub typ: T,
+    /// builds the same instance afresh (never cloned): lets a check compare an original with its clones
+    pub make: Box<dyn Fn() -> T + Send + Sync>,
     pub alg: u32,
     pub meas: Vec<T::Measurement>,
     /// per-measurement contribution to the aggregate, as integers
@@ -44,21 +46,21 @@ pub fn count_case<F: KitField>() -> Case<Count<F>>
 where
     F::Integer: IntConv,
 {
-    Case { name: format!("Count@{}", F::p()), typ: Count::new(), alg: 1, meas: vec![false, true], contrib: Box::new(|m| vec![*m as u128]), result: Box::new(|r| vec![r.to_u128()]), average: false, wire_poly_len: 2 }
+    Case { name: format!("Count@{}", F::p()), typ: Count::new(), make: Box::new(move || Count::new()), alg: 1, meas: vec![false, true], contrib: Box::new(|m| vec![*m as u128]), result: Box::new(|r| vec![r.to_u128()]), average: false, wire_poly_len: 2 }
 }
 pub fn sum_case<F: KitField>(max: u128) -> Case<Sum<F>>
 where
     F::Integer: IntConv,
 {
     let meas: Vec<u128> = if max <= 40 { (0..=max).collect() } else { edge_ints(max) };
-    Case { name: format!("Sum(max={max})@{}", F::p()), typ: Sum::new(int::<F>(max)).unwrap(), alg: 2, meas: meas.into_iter().map(int::<F>).collect(), contrib: Box::new(|m| vec![m.to_u128()]), result: Box::new(|r| vec![r.to_u128()]), average: false, wire_poly_len: (1 + bits_of(max)).next_power_of_two() }
+    Case { name: format!("Sum(max={max})@{}", F::p()), typ: Sum::new(int::<F>(max)).unwrap(), make: Box::new(move || Sum::new(int::<F>(max)).unwrap()), alg: 2, meas: meas.into_iter().map(int::<F>).collect(), contrib: Box::new(|m| vec![m.to_u128()]), result: Box::new(|r| vec![r.to_u128()]), average: false, wire_poly_len: (1 + bits_of(max)).next_power_of_two() }
 }
 pub fn average_case<F: KitField>(max: u128) -> Case<Average<F>>
 where
     F::Integer: IntConv,
 {
     let meas: Vec<u128> = if max <= 40 { (0..=max).collect() } else { edge_ints(max) };
-    Case { name: format!("Average(max={max})@{}", F::p()), typ: Average::new(int::<F>(max)).unwrap(), alg: 0xFFFF0000, meas: meas.into_iter().map(int::<F>).collect(), contrib: Box::new(|m| vec![m.to_u128()]), result: Box::new(|r| vec![r.to_bits() as u128]), average: true, wire_poly_len: (1 + bits_of(max)).next_power_of_two() }
+    Case { name: format!("Average(max={max})@{}", F::p()), typ: Average::new(int::<F>(max)).unwrap(), make: Box::new(move || Average::new(int::<F>(max)).unwrap()), alg: 0xFFFF0000, meas: meas.into_iter().map(int::<F>).collect(), contrib: Box::new(|m| vec![m.to_u128()]), result: Box::new(|r| vec![r.to_bits() as u128]), average: true, wire_poly_len: (1 + bits_of(max)).next_power_of_two() }
 }
 pub fn vec_meas(max: u128, len: usize, l1: Option<u128>) -> Vec<Vec<u128>> {
     // full domain when small, else edges
@@ -114,14 +116,14 @@ where
     F::Integer: IntConv,
 {
     let calls = (bits_of(max) * len).div_ceil(chunk);
-    Case { name: format!("SumVec(max={max},len={len},chunk={chunk})@{}", F::p()), typ: SumVec::new(int::<F>(max), len, chunk).unwrap(), alg: 3, meas: vec_meas(max, len, None).into_iter().map(|v| v.into_iter().map(int::<F>).collect()).collect(), contrib: Box::new(|m: &Vec<F::Integer>| m.iter().map(|x| x.to_u128()).collect()), result: Box::new(|r: &Vec<F::Integer>| r.iter().map(|x| x.to_u128()).collect()), average: false, wire_poly_len: (1 + calls).next_power_of_two() }
+    Case { name: format!("SumVec(max={max},len={len},chunk={chunk})@{}", F::p()), typ: SumVec::new(int::<F>(max), len, chunk).unwrap(), make: Box::new(move || SumVec::new(int::<F>(max), len, chunk).unwrap()), alg: 3, meas: vec_meas(max, len, None).into_iter().map(|v| v.into_iter().map(int::<F>).collect()).collect(), contrib: Box::new(|m: &Vec<F::Integer>| m.iter().map(|x| x.to_u128()).collect()), result: Box::new(|r: &Vec<F::Integer>| r.iter().map(|x| x.to_u128()).collect()), average: false, wire_poly_len: (1 + calls).next_power_of_two() }
 }
 pub fn histogram_case<F: KitField>(len: usize, chunk: usize) -> Case<Histogram<F, ParallelSum<F, Mul>>>
 where
     F::Integer: IntConv,
 {
     let meas: Vec<usize> = if len <= 12 { (0..len).collect() } else { vec![0, 1, len / 2, chunk.min(len - 1), (chunk + 1).min(len - 1), len - 2, len - 1] };
-    Case { name: format!("Histogram(len={len},chunk={chunk})@{}", F::p()), typ: Histogram::new(len, chunk).unwrap(), alg: 4, meas, contrib: Box::new(move |m| (0..len).map(|i| (i == *m) as u128).collect()), result: Box::new(|r: &Vec<F::Integer>| r.iter().map(|x| x.to_u128()).collect()), average: false, wire_poly_len: (1 + len.div_ceil(chunk)).next_power_of_two() }
+    Case { name: format!("Histogram(len={len},chunk={chunk})@{}", F::p()), typ: Histogram::new(len, chunk).unwrap(), make: Box::new(move || Histogram::new(len, chunk).unwrap()), alg: 4, meas, contrib: Box::new(move |m| (0..len).map(|i| (i == *m) as u128).collect()), result: Box::new(|r: &Vec<F::Integer>| r.iter().map(|x| x.to_u128()).collect()), average: false, wire_poly_len: (1 + len.div_ceil(chunk)).next_power_of_two() }
 }
 pub fn multihot_case<F: KitField>(len: usize, maxw: usize, chunk: usize) -> Case<MultihotCountVec<F, ParallelSum<F, Mul>>>
 where
@@ -145,13 +147,13 @@ where
         meas.dedup();
     }
     let calls = (len + bits_of(maxw as u128)).div_ceil(chunk);
-    Case { name: format!("Multihot(len={len},maxw={maxw},chunk={chunk})@{}", F::p()), typ: MultihotCountVec::new(len, maxw, chunk).unwrap(), alg: 5, meas, contrib: Box::new(|m: &Vec<bool>| m.iter().map(|b| *b as u128).collect()), result: Box::new(|r: &Vec<F::Integer>| r.iter().map(|x| x.to_u128()).collect()), average: false, wire_poly_len: (1 + calls).next_power_of_two() }
+    Case { name: format!("Multihot(len={len},maxw={maxw},chunk={chunk})@{}", F::p()), typ: MultihotCountVec::new(len, maxw, chunk).unwrap(), make: Box::new(move || MultihotCountVec::new(len, maxw, chunk).unwrap()), alg: 5, meas, contrib: Box::new(|m: &Vec<bool>| m.iter().map(|b| *b as u128).collect()), result: Box::new(|r: &Vec<F::Integer>| r.iter().map(|x| x.to_u128()).collect()), average: false, wire_poly_len: (1 + calls).next_power_of_two() }
 }
 pub fn l1_case<F: KitField>(max: u128, len: usize, chunk: usize) -> Case<L1BoundSum<F, ParallelSum<F, Mul>>>
 where
     F::Integer: IntConv,
 {
     let calls = (bits_of(max) * (len + 1)).div_ceil(chunk);
-    Case { name: format!("L1BoundSum(max={max},len={len},chunk={chunk})@{}", F::p()), typ: L1BoundSum::new(int::<F>(max), len, chunk).unwrap(), alg: 7, meas: vec_meas(max, len, Some(max)).into_iter().map(|v| v.into_iter().map(int::<F>).collect()).collect(), contrib: Box::new(|m: &Vec<F::Integer>| m.iter().map(|x| x.to_u128()).collect()), result: Box::new(|r: &Vec<F::Integer>| r.iter().map(|x| x.to_u128()).collect()), average: false, wire_poly_len: (1 + calls).next_power_of_two() }
+    Case { name: format!("L1BoundSum(max={max},len={len},chunk={chunk})@{}", F::p()), typ: L1BoundSum::new(int::<F>(max), len, chunk).unwrap(), make: Box::new(move || L1BoundSum::new(int::<F>(max), len, chunk).unwrap()), alg: 7, meas: vec_meas(max, len, Some(max)).into_iter().map(|v| v.into_iter().map(int::<F>).collect()).collect(), contrib: Box::new(|m: &Vec<F::Integer>| m.iter().map(|x| x.to_u128()).collect()), result: Box::new(|r: &Vec<F::Integer>| r.iter().map(|x| x.to_u128()).collect()), average: false, wire_poly_len: (1 + calls).next_power_of_two() }
 }
 
